@@ -22,6 +22,7 @@ type Profile struct {
 	CaptureOnly                                                                        int  // percent of backtrack points (choices, lookaheads, optional/repeated elements) whose operand is built from terminals and captures only
 	RecSplice                                                                          int  // percent of grammars that get a nested-group idiom (recursive alternative sharing its first character with a sibling)
 	WUntil                                                                             int  // weight of the "(!T .)* T" idiom with a terminator T that leaves tokens
+	TwoCapSplice                                                                       int  // percent of grammars whose first rule first tries two captures in one sequence, the second failing, then an alternative that begins with an action
 	ItemSplice                                                                         int  // percent of grammars whose first rule tries the bracketed-item idiom first (single-use rules right behind a dispatch character)
 	ListSplice                                                                         int  // percent of grammars whose first rule becomes a right-recursive list whose items end in the grammar's last action
 	MemoSplice                                                                         int  // percent of grammars with a re-enter-after-overwrite choice (memo splice)
@@ -35,12 +36,12 @@ type Profile struct {
 var Profiles = map[string]Profile{
 	"plain":      {ItemSplice: 10, Name: "plain", StringSplice: 15, KeywordSplice: 15, ExtremeSplice: 15, WUntil: 3, ListSplice: 20, MinRules: 2, MaxRules: 6, Depth: 3, AltMin: 2, AltMax: 4, SeqMax: 4, WTerm: 22, WSeq: 20, WAlt: 18, WOpt: 6, WStar: 6, WPlus: 6, WAnd: 4, WNot: 4, WCap: 6, WRef: 8, WAct: 6, WPred: 2, WState: 1, Hostile: 8, Newline: 2},
 	"switchy":    {ItemSplice: 25, Name: "switchy", StringSplice: 10, KeywordSplice: 25, ExtremeSplice: 12, Dispatch: 60, RecSplice: 40, MinRules: 2, MaxRules: 6, Depth: 3, AltMin: 3, AltMax: 6, SeqMax: 3, WTerm: 22, WSeq: 16, WAlt: 30, WOpt: 6, WStar: 5, WPlus: 4, WAnd: 5, WNot: 5, WCap: 4, WRef: 10, WAct: 4, WPred: 1, WState: 0, Hostile: 6, Newline: 1},
-	"backtracky": {ItemSplice: 6, Name: "backtracky", StringSplice: 10, KeywordSplice: 15, ExtremeSplice: 10, WUntil: 8, ListSplice: 20, MemoSplice: 50, CaptureOnly: 35, MinRules: 2, MaxRules: 5, Depth: 3, AltMin: 2, AltMax: 4, SeqMax: 4, WTerm: 18, WSeq: 22, WAlt: 22, WOpt: 5, WStar: 5, WPlus: 4, WAnd: 6, WNot: 4, WCap: 10, WRef: 12, WAct: 10, WPred: 1, WState: 0, Hostile: 3, Newline: 1, SharedPrefix: 60},
+	"backtracky": {TwoCapSplice: 10, ItemSplice: 6, Name: "backtracky", StringSplice: 10, KeywordSplice: 15, ExtremeSplice: 10, WUntil: 8, ListSplice: 20, MemoSplice: 50, CaptureOnly: 35, MinRules: 2, MaxRules: 5, Depth: 3, AltMin: 2, AltMax: 4, SeqMax: 4, WTerm: 18, WSeq: 22, WAlt: 22, WOpt: 5, WStar: 5, WPlus: 4, WAnd: 6, WNot: 4, WCap: 10, WRef: 12, WAct: 10, WPred: 1, WState: 0, Hostile: 3, Newline: 1, SharedPrefix: 60},
 	"deep":       {ItemSplice: 10, Name: "deep", StringSplice: 10, KeywordSplice: 10, ExtremeSplice: 10, WUntil: 4, CaptureOnly: 10, MinRules: 3, MaxRules: 7, Depth: 4, AltMin: 2, AltMax: 3, SeqMax: 3, WTerm: 14, WSeq: 22, WAlt: 12, WOpt: 6, WStar: 6, WPlus: 6, WAnd: 2, WNot: 2, WCap: 14, WRef: 18, WAct: 8, WPred: 1, WState: 0, Hostile: 10, Newline: 2},
 	"erry":       {Name: "erry", StringSplice: 10, KeywordSplice: 10, ExtremeSplice: 8, WUntil: 4, RefHeavy: true, MinRules: 4, MaxRules: 7, Depth: 3, AltMin: 2, AltMax: 3, SeqMax: 5, WTerm: 14, WSeq: 30, WAlt: 10, WOpt: 6, WStar: 5, WPlus: 6, WAnd: 2, WNot: 2, WCap: 14, WRef: 30, WAct: 2, WPred: 1, WState: 0, Hostile: 15, Newline: 20},
-	"actiony":    {ItemSplice: 8, Name: "actiony", StringSplice: 20, KeywordSplice: 10, ExtremeSplice: 12, WUntil: 8, ListSplice: 40, CaptureOnly: 10, MinRules: 2, MaxRules: 5, Depth: 3, AltMin: 2, AltMax: 3, SeqMax: 5, WTerm: 14, WSeq: 26, WAlt: 14, WOpt: 8, WStar: 8, WPlus: 8, WAnd: 5, WNot: 3, WCap: 16, WRef: 12, WAct: 24, WPred: 1, WState: 0, Hostile: 4, Newline: 2, SharedPrefix: 40},
+	"actiony":    {TwoCapSplice: 25, ItemSplice: 8, Name: "actiony", StringSplice: 20, KeywordSplice: 10, ExtremeSplice: 12, WUntil: 8, ListSplice: 40, CaptureOnly: 10, MinRules: 2, MaxRules: 5, Depth: 3, AltMin: 2, AltMax: 3, SeqMax: 5, WTerm: 14, WSeq: 26, WAlt: 14, WOpt: 8, WStar: 8, WPlus: 8, WAnd: 5, WNot: 3, WCap: 16, WRef: 12, WAct: 24, WPred: 1, WState: 0, Hostile: 4, Newline: 2, SharedPrefix: 40},
 	"listy":      {Name: "listy", StringSplice: 20, KeywordSplice: 10, ExtremeSplice: 12, WUntil: 8, ListSplice: 100, MemoSplice: 40, CaptureOnly: 10, MinRules: 2, MaxRules: 5, Depth: 3, AltMin: 2, AltMax: 3, SeqMax: 5, WTerm: 14, WSeq: 26, WAlt: 14, WOpt: 8, WStar: 8, WPlus: 8, WAnd: 5, WNot: 3, WCap: 16, WRef: 12, WAct: 24, WPred: 1, WState: 0, Hostile: 4, Newline: 2, SharedPrefix: 40},
-	"liney":      {Name: "liney", StringSplice: 20, KeywordSplice: 10, ExtremeSplice: 10, WUntil: 6, MinRules: 2, MaxRules: 5, Depth: 3, AltMin: 2, AltMax: 4, SeqMax: 5, WTerm: 26, WSeq: 24, WAlt: 14, WOpt: 6, WStar: 6, WPlus: 6, WAnd: 3, WNot: 3, WCap: 6, WRef: 8, WAct: 3, WPred: 1, WState: 0, Hostile: 25, Newline: 25},
+	"liney":      {TwoCapSplice: 8, Name: "liney", StringSplice: 20, KeywordSplice: 10, ExtremeSplice: 10, WUntil: 6, MinRules: 2, MaxRules: 5, Depth: 3, AltMin: 2, AltMax: 4, SeqMax: 5, WTerm: 26, WSeq: 24, WAlt: 14, WOpt: 6, WStar: 6, WPlus: 6, WAnd: 3, WNot: 3, WCap: 6, WRef: 8, WAct: 3, WPred: 1, WState: 0, Hostile: 25, Newline: 25},
 }
 
 // ProfileMix is the fixed mix of a lab batch (cycled through by grammar index).
@@ -57,6 +58,7 @@ type genState struct {
 	known    []bool
 	rules    []*Rule
 	noNames  bool // inside a capture-only backtrack point: no actions, no references
+	twoCap   bool // memoSplice is asked for its two-capture variant
 }
 
 func (s *genState) pct(p int, label string) bool {
@@ -513,7 +515,14 @@ func (s *genState) dispatch(i, depth int, must, guarded bool) *Expr {
 			case 0:
 				// the operand can match without consuming: its first characters say nothing
 				// about what may follow the lookahead
-				alt.Kids = append(alt.Kids, Un(KAnd, Seq(Un(KStar, small("pa")), Un(KNot, small("pb")))))
+				if rapid.Bool().Draw(t, "paown") {
+					// ... made of some of the characters the alternative itself starts with:
+					// &('a'* !'x') [a-c]
+					lead = &Expr{K: KClass, Items: []Item{{perm[j], perm[j] + rune(rapid.IntRange(1, 2).Draw(t, "paw"))}}}
+					alt.Kids = append(alt.Kids, Un(KAnd, Seq(Un(KStar, &Expr{K: KLit, Runes: []rune{perm[j]}}), Un(KNot, small("pb")))))
+				} else {
+					alt.Kids = append(alt.Kids, Un(KAnd, Seq(Un(KStar, small("pa")), Un(KNot, small("pb")))))
+				}
 			case 1:
 				alt.Kids = append(alt.Kids, Un(KAnd, Un(KOpt, small("pa"))))
 			default:
@@ -703,7 +712,11 @@ func (s *genState) memoSplice(g *Grammar) {
 		s.rules = g.Rules
 		return
 	}
-	switch rapid.IntRange(0, 7).Draw(t, "msvar") {
+	msvar := rapid.IntRange(0, 7).Draw(t, "msvar")
+	if s.twoCap {
+		msvar = 1
+	}
+	switch msvar {
 	case 0:
 		// a rule remembered outside a lookahead, found again inside one by the rule that
 		// contains it, which is then read for real at the same offset:
@@ -747,7 +760,11 @@ func (s *genState) memoSplice(g *Grammar) {
 			fbody = Seq(Un(KCap, lit(x)), &Expr{K: KAct})
 		}
 		g.Rules = append(g.Rules, &Rule{Name: fmt.Sprintf("R%d", f), Body: fbody})
-		g.Rules[0].Body = &Expr{K: KAlt, Kids: []*Expr{first, Seq(&Expr{K: KAct}, Un(KPlus, lit(x)), lit('='), Un(KStar, lit(x)), lit('2')), Seq(Ref(f), lit('3')), g.Rules[0].Body}}
+		second := Seq(&Expr{K: KAct}, Un(KPlus, lit(x)), lit('='), Un(KStar, lit(x)), lit('2'))
+		if rapid.Bool().Draw(t, "m2short") {
+			second = Seq(&Expr{K: KAct}, Un(KPlus, lit(x)), lit('='), lit('2'))
+		}
+		g.Rules[0].Body = &Expr{K: KAlt, Kids: []*Expr{first, second, Seq(Ref(f), lit('3')), g.Rules[0].Body}}
 		s.n = len(g.Rules)
 		s.ruleMust = append(s.ruleMust, true)
 		s.known = append(s.known, true)
@@ -881,6 +898,19 @@ func (s *genState) itemSplice(g *Grammar) {
 	kids := []*Expr{Seq(lit('('), Ref(base)), Seq(lit('['), Ref(base+1)), Seq(Un(KPlus, Ref(base+2)))}
 	if rapid.Bool().Draw(t, "isswap") {
 		kids[0], kids[1] = kids[1], kids[0]
+	}
+	if rapid.IntRange(0, 2).Draw(t, "isown") > 0 {
+		// the choice is the whole body of a rule of its own, named twice (a real function
+		// whose first statement is the switch):  Item <- '(' G / '[' I / W+ ;
+		// R0 <- Item (',' Item)* '.' / (old)
+		it := base + 3
+		g.Rules = append(g.Rules, &Rule{Name: fmt.Sprintf("R%d", it), Body: &Expr{K: KAlt, Kids: kids}})
+		g.Rules[0].Body = &Expr{K: KAlt, Kids: []*Expr{Seq(Ref(it), Un(KStar, Seq(lit(','), Ref(it))), lit('.')), g.Rules[0].Body}}
+		s.n = len(g.Rules)
+		s.ruleMust = append(s.ruleMust, true, true, true, true)
+		s.known = append(s.known, true, true, true, true)
+		s.rules = g.Rules
+		return
 	}
 	g.Rules[0].Body = &Expr{K: KAlt, Kids: append(kids, g.Rules[0].Body)}
 	s.n = len(g.Rules)
@@ -1163,6 +1193,11 @@ func WellFormedGrammar(t *rapid.T, p Profile) *Grammar {
 	g := &Grammar{Package: "g", Struct: "G", Rules: s.rules}
 	if s.pct(p.MemoSplice, "memosplice") {
 		s.memoSplice(g)
+	}
+	if s.pct(p.TwoCapSplice, "twocapsplice") {
+		s.twoCap = true
+		s.memoSplice(g)
+		s.twoCap = false
 	}
 	if s.pct(p.RecSplice, "recsplice") {
 		s.recSplice(g)
